@@ -82,11 +82,23 @@ fn function_has_instance(
     };
 
     // 2. Let F be the this value (the function)
-    let JsValue::Object(func) = this else {
+    let JsValue::Object(mut func) = this else {
         return Err(JsError::type_error(
             "Function.prototype[Symbol.hasInstance] called on non-function",
         ));
     };
+
+    // OrdinaryHasInstance step 2: a bound function stands for its target
+    loop {
+        let target = match &func.borrow().exotic {
+            ExoticObject::Function(JsFunction::Bound(bound)) => Some(bound.target.cheap_clone()),
+            _ => None,
+        };
+        match target {
+            Some(t) => func = t,
+            None => break,
+        }
+    }
 
     // 3. Return OrdinaryHasInstance(F, V)
     // Get the prototype property of F
@@ -128,7 +140,10 @@ pub fn create_function_constructor(interp: &mut Interpreter) -> Gc<JsObject> {
     interp
         .function_prototype
         .borrow_mut()
-        .set_property(ctor_key, JsValue::Object(constructor.clone()));
+        .define_property(
+            ctor_key,
+            crate::value::Property::with_attributes(JsValue::Object(constructor.clone()), true, false, true),
+        );
 
     constructor
 }
